@@ -541,6 +541,28 @@ def rule_d(ctx: Context, R: Reporter):
             shapes.add(tuple(tags))
             R.check("C12.d", "return tuple has the shape (x, weights, logl[, blobs][, logw])", ok, fi, rn.stmt,
                     msg=f"{fi.short}: returns fields {tags}", key=f"shape:{','.join(map(str, tags))}")
+    # each shape is selected by the caller's flags: optional arrays are returned exactly when asked for
+    from ..util import conds_holding_at as _cha
+    from ..util import split_cond as _split
+
+    flag_of = {"blobs": next((p for p in fi.params if "blob" in p), None), "logw": next((p for p in fi.params if "logw" in p), None)}
+    for rt in return_tuples(fi):
+        rn = rt.node
+        tags = [(tg.tag(e, rn) or (name_tag(e.id) if isinstance(e, ast.Name) else None)) for e in rt.elts]
+        if isinstance(rn.stmt.value, ast.Tuple):
+            facts = {}
+            for (t, pol) in _cha(flow.cfg, rn):
+                for (a, p) in _split(t, pol):
+                    if isinstance(a, ast.Name):
+                        facts[a.id] = p
+            for opt, flag in flag_of.items():
+                if flag is None or flag not in facts:
+                    continue
+                has = opt in tags
+                ok = (facts[flag] is True) == has or (opt == "blobs" and not has)  # blobs may be absent when none exist
+                R.check("C12.d", f"`{opt}` is returned exactly when `{flag}` is set", ok, fi, rn.stmt,
+                        msg=f"{fi.short}: `{unparse(rn.stmt)[:60]}` is reached with {flag}={facts[flag]} but {'returns' if has else 'omits'} `{opt}`: positions in the returned tuple "
+                            f"no longer mean what the caller asked for", key=f"flag-shape:{opt}:{','.join(map(str, tags))}")
     want = {("x", "weights", "logl"), ("x", "weights", "logl", "blobs"), ("x", "weights", "logl", "logw"), ("x", "weights", "logl", "blobs", "logw")}
     R.check("C12.d", "all four option combinations have a return", want <= shapes, fi, fi.node,
             msg=f"{fi.short}: missing return shapes {sorted(want - shapes)}", key="shape-table")
@@ -610,6 +632,30 @@ def _is_normalising(ctx: Context, fi: FuncInfo, flow, d, seen=None) -> Tuple[boo
     return False, f"`{norm_text(v)[:50]}` does not normalise"
 
 
+def rule_f(ctx: Context, R: Reporter):
+    """C12.f  posterior() weights are the importance weights at beta = 1: every call
+    of the weight function in the posterior routine passes the literal 1 (or relies
+    on the routine's default, which is 1)."""
+    fi = posterior_fn(ctx)
+    wfn = _weights_fn(ctx)
+    n = 0
+    for (c, tg_) in ctx.cg.sites.get(fi.qualname, []):
+        if wfn not in [t for t in tg_ if isinstance(t, FuncInfo)]:
+            continue
+        n += 1
+        ps = [p for p in wfn.params if p != "self"]
+        arg = call_arg(c, 0, ps[0]) if ps else None
+        if arg is None:
+            d = wfn.param_default(ps[0]) if ps else None
+            val = const_value(d) if d is not None else None
+        else:
+            at = flow_of(fi.node).node_containing(c)
+            val = const_value(ExprResolver(fi.node).resolve(arg, at))
+        R.check("C12.f", "posterior weights are computed at beta = 1", val in (1, 1.0) and val is not True, fi, c,
+                msg=f"{fi.short}: `{unparse(c)[:60]}` computes the posterior weights at beta = {unparse(arg) if arg is not None else val}, not at 1", key="posterior-beta-one")
+    R.floor("C12.f", "weight-function calls in the posterior routine", n, 1)
+
+
 def rule_e(ctx: Context, R: Reporter):
     """C12.e  the weights returned by posterior() sum to one on every path: every
     definition of the returned weight vector that reaches a return is a
@@ -639,6 +685,7 @@ def rule_e(ctx: Context, R: Reporter):
 
 
 def run(ctx: Context, R: Reporter):
+    R.guard(rule_f, ctx, R)
     R.guard(rule_e, ctx, R)
     R.guard(rule_a, ctx, R)
     R.guard(rule_b, ctx, R)
